@@ -687,6 +687,85 @@ func runC09(c *Ctx) {
 		}
 	})
 
+	// ---- hand-built issuer structs and struct reuse: the parent is a struct the caller filled in (no RawSubject), used
+	// for several certificates with its Subject edited in place in between; and the self-signed loop where template and
+	// parent are one struct. Each certificate must carry the names its template and parent held AT THE TIME of its call.
+	{
+		rr := c.Rng("reuse-structs")
+		for _, s := range signers {
+			if s.family == "rsa" && !c.Thorough {
+				continue
+			}
+			for round := 0; round < c.Q(3, 20); round++ {
+				alg := s.algs[rr.Intn(len(s.algs))]
+				w := map[string]interface{}{"signer": s.family, "algorithm": algName(alg)}
+				parent := &gx509.Certificate{Subject: pkix.Name{CommonName: fmt.Sprintf("hand-built issuer %d/0", round), Organization: []string{"Org A"}}}
+				self := &gx509.Certificate{SerialNumber: big.NewInt(1000), Subject: pkix.Name{CommonName: fmt.Sprintf("self %d/0", round), Country: []string{"CN"}},
+					NotBefore: fixedNow.Add(-time.Hour), NotAfter: fixedNow.Add(time.Hour), BasicConstraintsValid: true, IsCA: true, SignatureAlgorithm: alg}
+				selfKeyOK := s.family == "sm2"
+				for step := 0; step < 4; step++ {
+					if step > 0 {
+						// edit the same structs in place
+						parent.Subject.CommonName = fmt.Sprintf("hand-built issuer %d/%d", round, step)
+						if step == 2 {
+							parent.Subject.Organization = append(parent.Subject.Organization, "Org B")
+						}
+						self.Subject.CommonName = fmt.Sprintf("self %d/%d", round, step)
+						self.SerialNumber = big.NewInt(int64(1000 + step))
+					}
+					wantIssuer := flatName(parent.Subject)
+					t := &gx509.Certificate{SerialNumber: big.NewInt(int64(10 + step)), Subject: pkix.Name{CommonName: fmt.Sprintf("leaf %d/%d", round, step)},
+						NotBefore: fixedNow.Add(-time.Hour), NotAfter: fixedNow.Add(time.Hour), SignatureAlgorithm: alg}
+					var der []byte
+					var err error
+					if pi := mon.Guard(func() { der, err = gx509.CreateCertificate(t, parent, &subjPub.PublicKey, s.key) }); pi != nil || err != nil {
+						rep.Violation("C09/reuse/CreateCertificate-with-hand-built-parent-failed/"+s.family, fmt.Sprint(pi, err), w)
+						break
+					}
+					p, perr := gx509.ParseCertificate(der)
+					if perr != nil {
+						rep.Violation("C09/reuse/does-not-parse-back", perr.Error(), w)
+						break
+					}
+					if got := flatName(p.Issuer); !reflect.DeepEqual(got, wantIssuer) {
+						rep.Violation("C09/reuse/issuer-is-not-the-parent-subject-at-call-time", fmt.Sprintf("step %d: issuer %v, parent.Subject was %v", step, got, wantIssuer),
+							map[string]interface{}{"signer": s.family, "step": step, "der": mon.Hex(der)})
+					}
+					if got := flatName(p.Subject); !reflect.DeepEqual(got, flatName(t.Subject)) {
+						rep.Violation("C09/reuse/subject-is-not-the-template-subject", fmt.Sprintf("step %d: %v", step, got), map[string]interface{}{"der": mon.Hex(der)})
+					}
+					rep.Eval(fmt.Sprintf("reuse/hand-built-parent/%s/step=%d", s.family, step))
+					if !selfKeyOK {
+						continue
+					}
+					// self-signed: template and parent are the same struct
+					sk := s.key.(*sm2.PrivateKey)
+					wantSelf := flatName(self.Subject)
+					if pi := mon.Guard(func() { der, err = gx509.CreateCertificate(self, self, &sk.PublicKey, sk) }); pi != nil || err != nil {
+						rep.Violation("C09/reuse/self-signed-CreateCertificate-failed", fmt.Sprint(pi, err), w)
+						break
+					}
+					p, perr = gx509.ParseCertificate(der)
+					if perr != nil {
+						rep.Violation("C09/reuse/does-not-parse-back", perr.Error(), w)
+						break
+					}
+					if gs, gi := flatName(p.Subject), flatName(p.Issuer); !reflect.DeepEqual(gs, wantSelf) || !reflect.DeepEqual(gi, wantSelf) {
+						rep.Violation("C09/reuse/self-signed-names-are-not-the-template-names-at-call-time", fmt.Sprintf("step %d: subject %v issuer %v, template.Subject was %v", step, gs, gi, wantSelf),
+							map[string]interface{}{"step": step, "der": mon.Hex(der)})
+					}
+					if e := p.CheckSignatureFrom(p); e != nil {
+						rep.Violation("C09/reuse/self-signed-does-not-verify-under-itself", e.Error(), map[string]interface{}{"der": mon.Hex(der)})
+					}
+					if p.SerialNumber.Cmp(self.SerialNumber) != 0 {
+						rep.Violation("C09/reuse/self-signed-serial-stale", fmt.Sprint(p.SerialNumber), map[string]interface{}{"der": mon.Hex(der)})
+					}
+					rep.Eval(fmt.Sprintf("reuse/self-signed-same-struct/step=%d", step))
+				}
+			}
+		}
+	}
+
 	// ---- CSRs
 	nR := c.Q(40, 600)
 	Par(nR*len(signers), func(idx int) {
@@ -920,4 +999,26 @@ func runC09(c *Ctx) {
 		}
 	}
 	_ = verifyUnder
+}
+
+// flatName lists the attributes of a name that the fixed pkix.Name fields carry, for comparison across encode/parse.
+func flatName(n pkix.Name) []string {
+	var out []string
+	add := func(k string, v []string) {
+		for _, x := range v {
+			out = append(out, k+"="+x)
+		}
+	}
+	add("C", n.Country)
+	add("O", n.Organization)
+	add("OU", n.OrganizationalUnit)
+	add("L", n.Locality)
+	add("ST", n.Province)
+	if n.CommonName != "" {
+		out = append(out, "CN="+n.CommonName)
+	}
+	if n.SerialNumber != "" {
+		out = append(out, "SN="+n.SerialNumber)
+	}
+	return out
 }
